@@ -34,7 +34,10 @@ fn name(cn: &str) -> openssl::x509::X509Name {
 }
 
 fn serial(n: u64) -> Asn1Integer {
-	BigNum::from_dec_str(&n.to_string()).unwrap().to_asn1_integer().unwrap()
+	BigNum::from_dec_str(&n.to_string())
+		.unwrap()
+		.to_asn1_integer()
+		.unwrap()
 }
 
 impl Hierarchy {
@@ -43,7 +46,11 @@ impl Hierarchy {
 		let mut certs: Vec<X509> = Vec::new();
 		for i in 0..4 {
 			let key = ed25519(i as u8);
-			let cn = if i == 0 { "Sim Root".to_string() } else { format!("Sim Intermediate {}", i) };
+			let cn = if i == 0 {
+				"Sim Root".to_string()
+			} else {
+				format!("Sim Intermediate {}", i)
+			};
 			let mut b = X509Builder::new().unwrap();
 			b.set_version(2).unwrap();
 			b.set_serial_number(&serial(1000 + i as u64)).unwrap();
@@ -55,8 +62,10 @@ impl Hierarchy {
 			}
 			b.set_pubkey(&key).unwrap();
 			b.set_not_before(&Asn1Time::from_unix(0).unwrap()).unwrap();
-			b.set_not_after(&Asn1Time::from_unix(32_503_680_000).unwrap()).unwrap(); // year 3000
-			b.append_extension(BasicConstraints::new().critical().ca().build().unwrap()).unwrap();
+			b.set_not_after(&Asn1Time::from_unix(32_503_680_000).unwrap())
+				.unwrap(); // year 3000
+			b.append_extension(BasicConstraints::new().critical().ca().build().unwrap())
+				.unwrap();
 			let signer = if i == 0 { &key } else { &keys[i - 1] };
 			b.sign(signer, MessageDigest::null()).unwrap();
 			certs.push(b.build());
@@ -68,6 +77,13 @@ impl Hierarchy {
 
 thread_local! {
 	static HIER: Hierarchy = Hierarchy::new();
+}
+
+/// build the fixed hierarchy now (the worker's parent process does it once, before it forks a run)
+pub fn warm() {
+	HIER.with(|h| {
+		let _ = h.certs.len();
+	});
 }
 
 #[derive(Clone, Debug, Default)]
@@ -119,10 +135,16 @@ pub fn inspect_csr(csr_der: &[u8]) -> (CsrFacts, Option<PKey<Public>>) {
 	for e in req.subject_name().entries() {
 		let nid = e.object().nid();
 		let k = nid.short_name().unwrap_or("?").to_string();
-		let v = e.data().as_utf8().map(|s| s.to_string()).unwrap_or_default();
+		let v = e
+			.data()
+			.as_utf8()
+			.map(|s| s.to_string())
+			.unwrap_or_default();
 		f.subject.push((k, v));
 	}
-	f.digest = der::outer_sig_alg_oid(csr_der).map(|o| der::sig_alg_digest(&o).to_string()).unwrap_or_default();
+	f.digest = der::outer_sig_alg_oid(csr_der)
+		.map(|o| der::sig_alg_digest(&o).to_string())
+		.unwrap_or_default();
 	// SAN: copy the requested extensions into a scratch certificate and read them back with
 	// OpenSSL's own GeneralName parser.
 	if let Ok(exts) = req.extensions() {
@@ -175,14 +197,21 @@ pub fn issue(
 		let issuer_idx = chain_len - 1; // 0 = root signs the leaf directly
 		let mut b = X509Builder::new().map_err(|e| e.to_string())?;
 		b.set_version(2).map_err(|e| e.to_string())?;
-		b.set_serial_number(&serial(0x10000 + serial_no)).map_err(|e| e.to_string())?;
-		let cn = dns.first().or(ips.first()).cloned().unwrap_or_else(|| "leaf".into());
+		b.set_serial_number(&serial(0x10000 + serial_no))
+			.map_err(|e| e.to_string())?;
+		let cn = dns
+			.first()
+			.or(ips.first())
+			.cloned()
+			.unwrap_or_else(|| "leaf".into());
 		let mut nb = X509NameBuilder::new().unwrap();
 		// CN is limited to 64 characters by OpenSSL's string table
 		let cn: String = cn.chars().take(60).collect();
-		nb.append_entry_by_text("CN", &cn).map_err(|e| e.to_string())?;
+		nb.append_entry_by_text("CN", &cn)
+			.map_err(|e| e.to_string())?;
 		b.set_subject_name(&nb.build()).map_err(|e| e.to_string())?;
-		b.set_issuer_name(h.certs[issuer_idx].subject_name()).map_err(|e| e.to_string())?;
+		b.set_issuer_name(h.certs[issuer_idx].subject_name())
+			.map_err(|e| e.to_string())?;
 		b.set_pubkey(pubkey).map_err(|e| e.to_string())?;
 		let not_before = now;
 		let not_after = now + lifetime_s;
@@ -190,7 +219,8 @@ pub fn issue(
 		let na = Asn1Time::from_unix(not_after as _).map_err(|e| e.to_string())?;
 		b.set_not_before(&nb).map_err(|e| e.to_string())?;
 		b.set_not_after(&na).map_err(|e| e.to_string())?;
-		b.append_extension(BasicConstraints::new().critical().build().unwrap()).map_err(|e| e.to_string())?;
+		b.append_extension(BasicConstraints::new().critical().build().unwrap())
+			.map_err(|e| e.to_string())?;
 		if !dns.is_empty() || !ips.is_empty() {
 			let mut san = SubjectAlternativeName::new();
 			for d in dns {
@@ -199,10 +229,13 @@ pub fn issue(
 			for i in ips {
 				san.ip(i);
 			}
-			let ext = san.build(&b.x509v3_context(Some(&h.certs[issuer_idx]), None)).map_err(|e| e.to_string())?;
+			let ext = san
+				.build(&b.x509v3_context(Some(&h.certs[issuer_idx]), None))
+				.map_err(|e| e.to_string())?;
 			b.append_extension(ext).map_err(|e| e.to_string())?;
 		}
-		b.sign(&h.keys[issuer_idx], MessageDigest::null()).map_err(|e| e.to_string())?;
+		b.sign(&h.keys[issuer_idx], MessageDigest::null())
+			.map_err(|e| e.to_string())?;
 		let leaf = b.build();
 		let mut pem = String::from_utf8(leaf.to_pem().map_err(|e| e.to_string())?).unwrap();
 		// chain: leaf, then issuer_idx, issuer_idx-1, ... down to (but excluding) the root, unless
@@ -224,7 +257,13 @@ pub fn issue(
 }
 
 /// A throw-away certificate for pre-seeded pairs (not issued by any simulated CA instance).
-pub fn issue_for_private(key: &PKey<Private>, dns: &[String], ips: &[String], now: i64, lifetime_s: i64) -> Result<String, String> {
+pub fn issue_for_private(
+	key: &PKey<Private>,
+	dns: &[String],
+	ips: &[String],
+	now: i64,
+	lifetime_s: i64,
+) -> Result<String, String> {
 	let der = key.public_key_to_der().map_err(|e| e.to_string())?;
 	let pk = PKey::public_key_from_der(&der).map_err(|e| e.to_string())?;
 	issue(&pk, dns, ips, now, lifetime_s, 2, 7).map(|i| i.pem)
